@@ -943,7 +943,8 @@ func declare(rec *evid.Recorder, c FileCase) func() {
 	rawCase, _ := json.Marshal(c)
 	b, _ := json.MarshalIndent(evid.ReplayFile{Property: "C15", Kind: "file", Case: rawCase, Note: "the worker died (or was killed) while judging this declared-risky case"}, "", " ")
 	_ = os.WriteFile(p, b, 0o644)
-	return func() { _ = os.Remove(p) }
+	// truncate, never remove: the recorder holds this file open
+	return func() { _ = os.Truncate(p, 0) }
 }
 
 func check(rt *rapid.T, rec *evid.Recorder, k *evid.Kind[FileCase], c FileCase, nt bool, labels []string) {
